@@ -1,10 +1,10 @@
-// Package c11: harness for property C11 (stub until built).
+// Package c11: harness for property C11 (IBC swap middleware: funds conserved, one acknowledgement,
+// only after every leg resolves). See env.go (application + loop-back channels + relayer), gen.go
+// (execution of one history, observation, Coq terms), run.go (corpus, generator, statistics).
 package c11
 
-import "fmt"
-
-// Run generates n cases from seed, runs them on the real application and writes
-// cases_*.v and stats.json into outDir.
+// Run generates n histories from seed (after the fixed corpus), runs them on the real application and
+// writes cases_*.v and stats.json into outDir.
 func Run(seed int64, n int, outDir string) error {
-	return fmt.Errorf("c11: harness not built yet")
+	return runAll(seed, n, outDir)
 }
